@@ -2079,9 +2079,19 @@ impl VirtualFileSystem for Memfs {
     /// assert_vfs_read_all!(vfs, &file, "foobar 1".to_string());
     /// ```
     fn write_all<T: AsRef<Path>, U: AsRef<[u8]>>(&self, path: T, data: U) -> RvResult<()> {
-        let mut f = self.write(path)?;
-        f.write_all(data.as_ref())?;
-        Ok(())
+        // Replace the stored file's content while holding the write lock so that the file can't be
+        // moved or removed between creating it and writing to it
+        let mut guard = self.write_guard();
+        let path = self._abs(&guard, path)?;
+        self._add(&mut guard, MemfsEntry::opts(&path).file().build())?;
+        match guard.get_file_mut(&path) {
+            Some(file) => {
+                file.data.clear();
+                file.data.extend_from_slice(data.as_ref());
+                Ok(())
+            },
+            None => Err(PathError::does_not_exist(path).into()),
+        }
     }
 
     /// Write the given lines to to the target file including final newline
